@@ -560,6 +560,9 @@ func (d *dataCloser) Close() error {
 	if err := d.WriteCloser.Close(); err != nil {
 		return err
 	}
+	// The end of data has been sent; whatever the server answers, a second
+	// Close must not send it again.
+	d.closed = true
 
 	d.c.conn.SetDeadline(time.Now().Add(d.c.SubmissionTimeout))
 	defer d.c.conn.SetDeadline(time.Time{})
@@ -588,7 +591,6 @@ func (d *dataCloser) Close() error {
 		}
 	}
 
-	d.closed = true
 	return nil
 }
 
